@@ -500,6 +500,10 @@ def check_c11(an):
         for b, snap in enumerate(obs.final_plays):
             if b >= nb or snap is None or not an.decisions[b]['complete']:
                 continue
+            if not (pl.got_end or run.outcome == 'finished'):
+                # the run was cut short (budget): the client may simply not have been handed the
+                # last cards yet; an unfinished replica proves nothing then
+                continue
             p = _model_play_at(an, b, 52)
             _cmp_play(an, who, b, snap, p, final=True)
         for b, (num, dealer, vul, hand) in enumerate(obs.deal_info):
